@@ -27,6 +27,7 @@ use std::time::Duration;
 use d_engine_core::role_state::RaftRoleState;
 use d_engine_core::{
     ElectionCore, ElectionHandler, Error, HardState, InboundEvent, InternalEvent, LeaderInfo, MaybeCloneOneshot,
+    MaybeCloneOneshotReceiver,
     Membership, MetaStore, MockCommitHandler, MockPurgeExecutor, MockRaftLog, MockReplicationCore, MockSnapshotPolicy,
     MockStateMachine, MockStateMachineHandler, MockTransport, NetworkError, PrepareResult, Raft, RaftCoreHandlers,
     RaftNodeConfig, RaftOneshot, RaftRole, RaftStorageHandles, SignalParams, StorageEngine, Transport, TypeConfig,
@@ -300,6 +301,15 @@ fn exec_tal(case: &str) -> String {
             .await
             .unwrap();
         }
+        // further membership history (same syntax as the `cc` op), applied in order; errors are ignored like a
+        // failed apply_config_change is
+        if let Some(ch) = f.get("ch") {
+            if ch != "-" && !ch.is_empty() {
+                for c in ch.split('/') {
+                    let _ = m.apply_config_change(parse_change(c)).await;
+                }
+            }
+        }
         let voters = m.voters().await.len();
         let script = Arc::new(Mutex::new(Script::default()));
         let pids = f.get("pids").unwrap();
@@ -362,7 +372,48 @@ fn exec_svr(case: &str) -> String {
 }
 
 // ------------------------------------------------------------------------------------------ kind cl
+/// Observes the order "persist, then reply": armed while one vote request / AppendEntries is handled; every
+/// `save_hard_state` call of the node asks whether the reply of that request has already been handed over.
+#[derive(Default)]
+struct Probe {
+    vote_rx: Option<MaybeCloneOneshotReceiver<std::result::Result<VoteResponse, tonic::Status>>>,
+    vote_got: Option<VoteResponse>,
+    ae_rx: Option<MaybeCloneOneshotReceiver<std::result::Result<AppendEntriesResponse, tonic::Status>>>,
+    ae_got: Option<AppendEntriesResponse>,
+    before: u32,
+    after: u32,
+}
+impl Probe {
+    fn poll(&mut self) {
+        if self.vote_got.is_none() {
+            if let Some(rx) = &mut self.vote_rx {
+                if let Ok(Ok(r)) = rx.try_recv() {
+                    self.vote_got = Some(r);
+                }
+            }
+        }
+        if self.ae_got.is_none() {
+            if let Some(rx) = &mut self.ae_rx {
+                if let Ok(Ok(r)) = rx.try_recv() {
+                    self.ae_got = Some(r);
+                }
+            }
+        }
+    }
+    fn on_save(&mut self) {
+        if self.vote_rx.is_none() && self.ae_rx.is_none() {
+            return;
+        }
+        self.poll();
+        if self.vote_got.is_some() || self.ae_got.is_some() { self.after += 1 } else { self.before += 1 }
+    }
+    fn tag(&self) -> &'static str {
+        if self.after > 0 { "pa" } else if self.before > 0 { "pb" } else { "pn" }
+    }
+}
+
 struct NodeEnv {
+    probe: Arc<Mutex<Probe>>,
     id: u32,
     learner: bool,
     initial: Vec<NodeMeta>,
@@ -415,7 +466,11 @@ impl NodeEnv {
         let mut log = mock_log_with_last(self.last.clone());
         let (m1, m2) = (meta.clone(), meta.clone());
         log.expect_load_hard_state().returning(move || m1.load_hard_state().map_err(Into::into));
-        log.expect_save_hard_state().returning(move |hs| m2.save_hard_state(hs).map_err(Into::into));
+        let pr = self.probe.clone();
+        log.expect_save_hard_state().returning(move |hs| {
+            pr.lock().unwrap().on_save();
+            m2.save_hard_state(hs).map_err(Into::into)
+        });
         let (l1, l2, l3) = (log_index.clone(), log_index.clone(), log_index.clone());
         log.expect_last_entry_id().returning(move || l1.load(Ordering::Relaxed));
         // never durable beyond the pre-noop index: the noop commit is driven explicitly (`nc`)
@@ -568,26 +623,37 @@ impl NodeEnv {
         };
     }
 
-    async fn vote_request(&mut self, req: VoteRequest) -> Option<VoteResponse> {
-        let (tx, mut rx) = MaybeCloneOneshot::new();
+    /// (reply, persist order tag: pb = every save happened before the reply was handed over, pa = a save after it,
+    /// pn = nothing was saved)
+    async fn vote_request(&mut self, req: VoteRequest) -> Option<(VoteResponse, &'static str)> {
+        let (tx, rx) = MaybeCloneOneshot::new();
+        *self.probe.lock().unwrap() = Probe { vote_rx: Some(rx), ..Default::default() };
         self.deliver(InboundEvent::ReceiveVoteRequest(req, tx)).await;
         self.pump().await;
-        match rx.try_recv() {
-            Ok(Ok(r)) => Some(r),
-            _ => None,
-        }
+        let mut p = self.probe.lock().unwrap();
+        p.poll();
+        let tag = p.tag();
+        let got = p.vote_got.take();
+        *p = Probe::default();
+        got.map(|r| (r, tag))
     }
 
     async fn append_entries(&mut self, term: u64, leader: u32) -> String {
-        let (tx, mut rx) = MaybeCloneOneshot::new();
+        let (tx, rx) = MaybeCloneOneshot::new();
+        *self.probe.lock().unwrap() = Probe { ae_rx: Some(rx), ..Default::default() };
         let req = AppendEntriesRequest { term, leader_id: leader, prev_log_index: 0, prev_log_term: 0, entries: vec![], leader_commit_index: 0 };
         self.deliver(InboundEvent::AppendEntries(req, vec![tx])).await;
         self.pump().await;
-        match rx.try_recv() {
-            Ok(Ok(r)) => {
-                if r.is_higher_term() { format!("ht{}", r.term) } else { "ok".into() }
+        let mut p = self.probe.lock().unwrap();
+        p.poll();
+        let tag = p.tag();
+        let got = p.ae_got.take();
+        *p = Probe::default();
+        match got {
+            Some(r) => {
+                if r.is_higher_term() { format!("ht{}.{}", r.term, tag) } else { format!("ok.{}", tag) }
             }
-            _ => "noresp".into(),
+            None => "noresp".into(),
         }
     }
 
@@ -617,6 +683,7 @@ fn exec_cl(case: &str) -> String {
                     .expect("save");
             }
             let mut n = NodeEnv {
+                probe: Arc::new(Mutex::new(Probe::default())),
                 id,
                 learner: p[1] == "l",
                 initial: parse_members(p[6]),
@@ -660,7 +727,7 @@ fn exec_cl(case: &str) -> String {
                         last_log_term: p[5].parse().unwrap(),
                     };
                     match nodes[i].vote_request(req).await {
-                        Some(r) => format!("g{}.t{}", if r.vote_granted { 1 } else { 0 }, r.term),
+                        Some((r, tag)) => format!("g{}.t{}.{}", if r.vote_granted { 1 } else { 0 }, r.term, tag),
                         None => "noresp".into(),
                     }
                 }
@@ -709,9 +776,9 @@ fn exec_cl(case: &str) -> String {
                                     if will_send && !xerr && *j < nodes.len() && *j != i && nodes[*j].up() && voters.contains(&nodes[*j].id) && !done.contains(j) {
                                         done.push(*j);
                                         match nodes[*j].vote_request(req).await {
-                                            Some(r) => {
+                                            Some((r, tag)) => {
                                                 let tl = nodes[*j].tail();
-                                                extra.push_str(&format!(".r{}=g{}t{}({})", j, if r.vote_granted { 1 } else { 0 }, r.term, tl));
+                                                extra.push_str(&format!(".r{}=g{}t{}{}({})", j, if r.vote_granted { 1 } else { 0 }, r.term, tag, tl));
                                                 rs.push(Ok(r));
                                             }
                                             None => rs.push(Err(rpc_err())),
@@ -869,6 +936,20 @@ fn gen_resp(r: &mut Rng, term: u64, lli: u64, llt: u64) -> String {
         _ => format!("d{}.{}.{}", around(r, term), r.below(lli + 1), r.below(llt + 1)),
     }
 }
+/// one membership change over a small id pool that contains the node itself
+fn gen_change(r: &mut Rng, pool: &[u64]) -> String {
+    let id = *r.pick(pool);
+    let id2 = *r.pick(pool);
+    match r.below(10) {
+        0 | 1 => format!("add.{}.{}", id, r.pick(&["p", "p", "a", "r"])),
+        2 | 3 => format!("rm.{}", id),
+        4 => format!("pro.{}", id),
+        5 | 6 => format!("bp.{}+{}.{}", id, id2, r.pick(&["a", "a", "p"])),
+        7 | 8 => format!("br.{}+{}", id, id2),
+        _ => format!("br.{}", id),
+    }
+}
+
 fn gen_tal(r: &mut Rng) -> String {
     let term = r.range(1, 6);
     let lli = r.below(4);
@@ -887,15 +968,25 @@ fn gen_tal(r: &mut Rng) -> String {
         _ => voters,
     };
     let rs: Vec<String> = (0..n).map(|_| gen_resp(r, term, lli, llt)).collect();
+    let my = r.range(1, 3);
+    // half of the cases continue with an arbitrary history: removals of peers AND of the node itself, re-adds, promotions
+    let ch = if r.chance(1, 2) {
+        let pool = [my, my, my + 1, my + 2, my + 1000, my + 1001, 7777];
+        let k = r.range(1, 5);
+        (0..k).map(|_| gen_change(r, &pool)).collect::<Vec<_>>().join("/")
+    } else {
+        "-".to_string()
+    };
     format!(
-        "tal my={} term={} lli={} llt={} init={} add={} rm={} pids={} rs={}",
-        r.range(1, 3),
+        "tal my={} term={} lli={} llt={} init={} add={} rm={} ch={} pids={} rs={}",
+        my,
         term,
         lli,
         llt,
         init,
         add,
         rm,
+        ch,
         pids,
         if rs.is_empty() { "-".to_string() } else { rs.join(",") }
     )
@@ -958,10 +1049,12 @@ fn gen_single(r: &mut Rng) -> String {
         } else if k < 96 {
             up = false;
             "crash,0".into()
-        } else if k < 98 {
+        } else if k < 97 {
             "restart,0".into()
-        } else {
+        } else if r.chance(1, 2) {
             format!("lg,0,{},{}", r.below(5), r.below(3))
+        } else {
+            format!("cc,0,{}", gen_change(r, &[1, 1, 2, 3, 4, 9]))
         };
         ops.push(op);
     }
@@ -987,6 +1080,15 @@ fn gen_cluster(r: &mut Rng, crashy: bool) -> String {
             ops.push(format!("cc,0,add.{}.p", i));
         }
         ops.push(format!("cc,0,bp.{}.a", (2..=n).map(|x| x.to_string()).collect::<Vec<_>>().join("+")));
+        // sometimes the cluster shrinks again: peers leave, or the first node itself is taken out
+        if r.chance(1, 2) {
+            if n > 3 || r.chance(1, 2) {
+                ops.push(format!("cc,0,br.{}", (3..=n).map(|x| x.to_string()).collect::<Vec<_>>().join("+")));
+            }
+            if r.chance(2, 3) {
+                ops.push("cc,0,rm.1".to_string());
+            }
+        }
     }
     let mut up = vec![true; n as usize];
     let steps = r.range(5, 18);
